@@ -7,11 +7,37 @@ from conductor.errors import (
 )
 
 
-class ExperimentInstance(NamedTuple):
+class _ExperimentInstanceFields(NamedTuple):
     name: str
-    args: List[ArgumentValue] = []
-    options: Dict[str, OptionValue] = {}
-    parallelizable: bool = False
+    args: List[ArgumentValue]
+    options: Dict[str, OptionValue]
+    parallelizable: bool
+
+
+class ExperimentInstance(_ExperimentInstanceFields):
+    """
+    One experiment of a `run_experiment_group()`. `args` defaults to an empty
+    list and `options` to an empty dict; every instance gets its own (a default
+    shared by all instances would be changed for all of them by
+    `instance.options[...] = ...`).
+    """
+
+    __slots__ = ()
+
+    def __new__(
+        cls,
+        name: str,
+        args: Optional[List[ArgumentValue]] = None,
+        options: Optional[Dict[str, OptionValue]] = None,
+        parallelizable: bool = False,
+    ):
+        return super().__new__(
+            cls,
+            name,
+            [] if args is None else args,
+            {} if options is None else options,
+            parallelizable,
+        )
 
 
 def run_experiment_group(
